@@ -165,7 +165,7 @@ def planner_cases(ctx: Ctx):
                 for c1 in compositions(sh[1]):
                     cases.append(dict(labels=list(pat), shape=list(sh), chunks=[list(c0), list(c1)], merge=bool(len(cases) % 2), nexpected=None))
     # sampled beyond the bound: incidence matrices at all densities (this is where forced merging matters)
-    nrand = 1500 if ctx.quick else 12000
+    nrand = 8000 if ctx.quick else 40000  # the forced-merge defect F7 needed about 500 random merge=True patterns per hit
     for t in range(nrand):
         nbk = int(rng.integers(3, 11))
         nl = int(rng.integers(2, 14))
@@ -174,7 +174,7 @@ def planner_cases(ctx: Ctx):
         blocks = [np.nonzero(inc[b])[0] for b in range(nbk)]
         blocks = [b if len(b) else np.array([-1]) for b in blocks]
         labels = np.concatenate(blocks)
-        cases.append(dict(labels=labels.tolist(), shape=[len(labels)], chunks=[[len(b) for b in blocks]], merge=bool(t % 2), nexpected=(nl if t % 3 == 0 else None)))
+        cases.append(dict(labels=labels.tolist(), shape=[len(labels)], chunks=[[len(b) for b in blocks]], merge=bool(t % 4), nexpected=(nl if t % 3 == 0 else None)))
     return cases, exhaustive_1d
 
 
@@ -214,7 +214,7 @@ def run(ctx: Ctx):
         cases, ex1d = planner_cases(ctx)
         run_bounded(
             ctx, "C09.rtc.find_group_cohorts", FUNCTION, cases, "vlib.props.C09:check_planner",
-            bound=f"EXHAUSTIVE: all 1-D label arrays of length 2..{5 if ctx.quick else 7} with <=4 labels plus missing (restricted-growth form), all chunkings, merge False/True ({ex1d} cases); 2-D grids up to {'2x3' if ctx.quick else '3x3'} with all 2-D chunkings (sampled label patterns); plus {1500 if ctx.quick else 12000} random label-by-block incidence matrices (3-10 blocks, 2-13 labels, density 0.1-0.7)",
+            bound=f"EXHAUSTIVE: all 1-D label arrays of length 2..{5 if ctx.quick else 7} with <=4 labels plus missing (restricted-growth form), all chunkings, merge False/True ({ex1d} cases); 2-D grids up to {'2x3' if ctx.quick else '3x3'} with all 2-D chunkings (sampled label patterns); plus {8000 if ctx.quick else 40000} random label-by-block incidence matrices (3-10 blocks, 2-13 labels, density 0.1-0.7)",
             rule="postcondition: cohorts partition the labels present; each key contains every block holding a member; 'blockwise' only if every label sits in one block; non-empty under merge=True; no exception; non-trivial = >=2 blocks",
             nontrivial=lambda c: sum(len(x) for x in c["chunks"]) > len(c["chunks"]), chunksize=64,
         )
